@@ -18,7 +18,8 @@ EXPLANATION = (
     "dependency, file.state, step.state, step_hash); detached-flag maintenance, acyclicity check placement and the "
     "state-transition relation are checked per write site on all paths; the _HASH_TRANSITIONS whitelist is compared "
     "with what each producer of hash updates can hand in and with the file table's CHECK constraints. Decides the "
-    "per-site structural clauses, not graph-wide invariants after arbitrary operation sequences."
+    "per-site structural clauses, not graph-wide invariants after arbitrary operation sequences. "
+    'Also: Step.mark_completed reaches outputs through products(File) in both branches (a step that completes while detached still gets its outputs BUILT).'
 )
 ASSUMPTIONS = [
     "SQLite enforces CHECK constraints and RAISE(ABORT) triggers as documented",
